@@ -275,7 +275,7 @@ class SolverPool:
     def solve(self, tasks, timeout_ms=None, keep_unsat=True, _retry=False):
         """tasks: iterable of (key, smt_text). Returns dict key -> (status, witness|reason, secs)."""
         if timeout_ms is None:
-            timeout_ms = 5000 if tier() == "quick" else 60000
+            timeout_ms = 5000 if tier() == "quick" else 15000
         tasks = [(k, t, timeout_ms) for k, t in tasks]
         texts = {k: t for k, t, _ in tasks}
         out = {}
